@@ -117,6 +117,7 @@ pub fn run(tier: &str, seed: u64, out: &str) {
     let mut nontrivial = 0u64;
     for (((c, r), m), ind) in cases.iter().zip(runs.iter()).zip(mods.iter()).zip(in_d.iter()) {
         rep.bump(&format!("document {} the theorem's domain inD, generation {}", if *ind { "in" } else { "outside" }, if r.status == "exit 0" { "succeeded" } else { "failed" }));
+        if !*ind && r.status == "exit 0" { for f in &c.features { rep.bump(&format!("outside inD yet generated, feature:{f}")); } }
         // the theorem transferred to the code: on a document of inD the run never stops inside the extractor
         if *ind && m.trim() == "(fail extract)" { rep.disagree(&case_text(c, r.prior), "inD holds", &format!("the model's extractor fails although C01_extract_total excludes it: {m}")); }
         for f in &c.features { rep.bump(&format!("feature:{f}")); }
